@@ -160,6 +160,9 @@ def gen(tier):
             yield {'k': 'pair', 'a': "%s('%s')" % (fn, v), 'b': "%s('%s')" % (fn, i), 'fn': 'valid-then-impossible-date'}
             yield {'k': 'pair', 'a': "%s('%s')" % (fn, i), 'b': "%s('%s')" % (fn, v), 'fn': 'valid-then-impossible-date'}
             yield {'k': 'lit', 'expr': "%s('%s')" % (fn, i), 'exp': '', 'cmp': 'eq', 'fn': 'impossible-date'}
+    # a bare number is no date
+    for e in ("year(12345)", "year('12345')", "year('10.75')", "month(123456)", "day('2024')"):
+        yield {'k': 'lit', 'expr': e, 'exp': '', 'cmp': 'eq', 'fn': 'number-is-no-date'}
     yield {'k': 'daterows', 'expr': 'year(name)', 'fn': 'date-rows'}
     yield {'k': 'daterows', 'expr': 'month(name)', 'fn': 'date-rows'}
     yield {'k': 'daterows', 'expr': 'day(name)', 'fn': 'date-rows'}
@@ -222,7 +225,9 @@ def gen(tier):
               "sqrt(name)", "exp(name)", "ln(name)", "year(name)", "month(12345)", "day('not a date')", "dow(size)",
               "least(a, b)", "greatest(name, 1)", "from_base64('!!!')", "replace(name, a)", "replace(name)", "substr(name)",
               "concat_ws(name)", "length(size)", "upper(size)", "power(2)", "format_size(name)", "format_size(-1)",
-              "substr(name, 99999999999)", "substr(name, 1, -1)", "year(2021-02-30)", "day('2021-13-01')", "format_time(99999999999999999999)"):
+              "substr(name, 99999999999)", "substr(name, 1, -1)", "year(2021-02-30)", "day('2021-13-01')", "format_time(99999999999999999999)",
+              "year('10.75')", "month(43 / 4)", "day('25:00')", "dow('12:00 pm')", "year('2147483647 years')", "year('999999999 weeks')",
+              "year('2147483647 days')", "year('300000 years ago')", "year('12:99')", "month('٢٠٢٣-١٢-١١')", "day(99999)", "year(1234567)"):
         yield {'k': 'bad', 'expr': e, 'fn': 'wrong-kind:' + e.split('(')[0]}
 
 
